@@ -41,6 +41,12 @@ pub struct IoState {
     /// reads answered with end-of-stream so far; a reader that keeps asking is cut off with an error
     pub eof_reads: usize,
     pub eof_loop: bool,
+    /// a read fails once (connection reset) when this many chunks have been delivered; whoever reads on
+    /// after that error is served the remaining chunks - nobody should
+    pub error_after_chunks: Option<usize>,
+    pub chunks_done: usize,
+    pub errored: bool,
+    pub read_after_error: bool,
 }
 
 #[derive(Clone)]
@@ -49,6 +55,13 @@ pub struct ScriptIo(pub Arc<Mutex<IoState>>);
 impl AsyncRead for ScriptIo {
     fn poll_read(self: Pin<&mut Self>, cx: &mut Context<'_>, buf: &mut ReadBuf<'_>) -> Poll<std::io::Result<()>> {
         let mut s = self.0.lock().unwrap();
+        if s.errored {
+            s.read_after_error = true;
+        }
+        if s.error_after_chunks == Some(s.chunks_done) && !s.errored {
+            s.errored = true;
+            return Poll::Ready(Err(std::io::Error::new(std::io::ErrorKind::ConnectionReset, "scripted transport error")));
+        }
         if let Some((data, pending)) = s.chunks.front_mut() {
             if *pending {
                 *pending = false;
@@ -63,6 +76,7 @@ impl AsyncRead for ScriptIo {
             buf.put_slice(&data[..n]);
             if n == data.len() {
                 s.chunks.pop_front();
+                s.chunks_done += 1;
             } else {
                 data.drain(..n);
             }
@@ -159,12 +173,18 @@ pub struct Transcript {
     pub reads: Vec<usize>,
     /// the server kept polling for more after the end of the stream (cut off after 5000 reads)
     pub eof_loop: bool,
+    /// the server read from the transport again after a read had failed
+    pub read_after_error: bool,
 }
 
 /// Run one server connection over the scripted input; returns everything the server wrote.
 pub fn run_server(flavour: Flavour, chunks: Vec<(Vec<u8>, bool)>, eof_now: bool) -> Transcript {
+    run_server_err(flavour, chunks, eof_now, None)
+}
+
+pub fn run_server_err(flavour: Flavour, chunks: Vec<(Vec<u8>, bool)>, eof_now: bool, error_after_chunks: Option<usize>) -> Transcript {
     let rt = tokio::runtime::Builder::new_current_thread().enable_time().start_paused(true).build().unwrap();
-    let state = Arc::new(Mutex::new(IoState { chunks: chunks.into(), eof_now, ..Default::default() }));
+    let state = Arc::new(Mutex::new(IoState { chunks: chunks.into(), eof_now, error_after_chunks, ..Default::default() }));
     let io = ScriptIo(state.clone());
     let finished = rt.block_on(async {
         type ConnFut = Pin<Box<dyn Future<Output = bool>>>;
@@ -231,7 +251,7 @@ pub fn run_server(flavour: Flavour, chunks: Vec<(Vec<u8>, bool)>, eof_now: bool)
     });
     drop(rt);
     let s = state.lock().unwrap();
-    Transcript { bytes: s.written.clone(), finished, reads: s.reads.clone(), eof_loop: s.eof_loop }
+    Transcript { bytes: s.written.clone(), finished, reads: s.reads.clone(), eof_loop: s.eof_loop, read_after_error: s.read_after_error }
 }
 
 // ------------------------------------------------------------------------------------------------
@@ -414,6 +434,10 @@ pub struct SniffCase {
     pub pendings: u32,
     pub tail: u16,
     pub eof_now: bool,
+    /// a read fails (once) after this many chunks of the plan: the connection ends there for every
+    /// server alike - nothing that follows the error on the transport is read, let alone answered
+    #[serde(default)]
+    pub error_at: Option<u8>,
 }
 
 pub fn chunk_plan(bytes: &[u8], cuts: &[u8], pendings: u32, tail: u16) -> Vec<(Vec<u8>, bool)> {
@@ -463,6 +487,28 @@ impl Engine for SniffEngine {
         let single = if bytes.is_empty() { vec![] } else { vec![(bytes.clone(), false)] };
         let is_h2 = bytes.len() >= PREFACE.len() && &bytes[..PREFACE.len()] == PREFACE;
 
+        if let Some(k) = c.error_at {
+            // a transport error in the middle of the plan: the connection is over - for the auto-detecting
+            // server as for the single-protocol one - and nothing behind the error is read
+            let k = (k as usize).min(plan.len());
+            let flav = if is_h2 { Flavour::PlainH2 } else { Flavour::PlainH1 };
+            let a = run_server_err(Flavour::Auto, plan.clone(), false, Some(k));
+            let p = run_server_err(flav, plan.clone(), false, Some(k));
+            rep.class("transport-error-injected");
+            let delivered: usize = plan.iter().take(k).map(|(d, _)| d.len()).sum();
+            if delivered < PREFACE.len() {
+                rep.class("transport-error-while-protocol-undecided");
+            }
+            if a.read_after_error && !p.read_after_error {
+                rep.violate(
+                    "C08/transport-error-swallowed",
+                    format!("input {} delivered as {:?} with a read error after {k} chunks: the auto-detecting connection went on reading the transport after the error and wrote {}; the single-protocol connection stopped (finished {:?})", show(&bytes), plan.iter().map(|(d, _)| d.len()).collect::<Vec<_>>(), show(&a.bytes), p.finished),
+                );
+            }
+            rep.nontrivial = k > 0 && k < plan.len();
+            rep.total_ops = plan.len() as u64;
+            return rep;
+        }
         let cut = run_server(Flavour::Auto, plan.clone(), c.eof_now);
         let whole = run_server(Flavour::Auto, single.clone(), c.eof_now);
         let plain = run_server(if is_h2 { Flavour::PlainH2 } else { Flavour::PlainH1 }, single, c.eof_now);
@@ -623,7 +669,13 @@ pub fn strategy() -> impl proptest::strategy::Strategy<Value = SniffCase> {
         1 => (1u8..=31).prop_map(|k| vec![k]),
     ];
     (stream, cuts, prop_oneof![Just(0u32), any::<u32>()], prop_oneof![Just(0u16), 1u16..64], any::<bool>())
-        .prop_map(|(stream, cuts, pendings, tail, eof_now)| SniffCase { stream, cuts, pendings, tail, eof_now })
+        .prop_map(|(stream, cuts, pendings, tail, eof_now)| {
+            // one case in eight carries a transport error somewhere in the first chunks (derived from the
+            // fields at hand: the case stays a pure function of them)
+            let h = (pendings as u64).wrapping_mul(0x9E37_79B9).wrapping_add(tail as u64 * 7 + cuts.len() as u64);
+            let error_at = if h % 8 == 3 { Some((h / 8 % 5) as u8) } else { None };
+            SniffCase { stream, cuts, pendings, tail, eof_now, error_at }
+        })
 }
 
 /// All compositions of the first `n` bytes into chunks for a fixed stream (thorough tier).
@@ -641,7 +693,7 @@ pub fn compositions(stream: StreamSpec, n: usize, eof_now: bool) -> Vec<SniffCas
             }
         }
         cuts.push(run);
-        out.push(SniffCase { stream: stream.clone(), cuts, pendings: 0, tail: 0, eof_now });
+        out.push(SniffCase { stream: stream.clone(), cuts, pendings: 0, tail: 0, eof_now, error_at: None });
     }
     out
 }
@@ -663,6 +715,7 @@ impl Engine for SniffRewindEngine {
             v.sig = match v.sig.as_str() {
                 "C08/fragmentation-changes-response" => "C18/sniffing-rewind/fragmentation-changes-what-hyper-reads".to_string(),
                 "C08/differs-from-single-protocol-server" => "C18/sniffing-rewind/bytes-differ-from-direct-delivery".to_string(),
+                "C08/transport-error-swallowed" => "C18/sniffing-rewind/transport-error-swallowed".to_string(),
                 other => format!("ignored/{other}"),
             };
         }
